@@ -1,6 +1,6 @@
 (* C06 Exit liveness: an open order can always be cancelled and made whole. *)
 From ATS Require Import Prelude Dec DecFacts Uuid Semver Types Contract Tactics Spec Inv InvAsk InstProofs AskProofs
-  BidFacts InvBid InvStep ExitProofs.
+  BidFacts InvBid InvStep ExitProofs MigrateProofs MigrateInv.
 
 (* asks: in every state reachable from an instantiation by ANY history (no side condition: fills of any accepted
    size, partial rejects, configuration changes, changes of marker type between steps), under any environment e'
@@ -67,6 +67,22 @@ Proof.
   destruct (inv_bids _ HB c id _ Hc Hl) as (b0 & Hb0 & Hok). injection Hb0 as <-. exact Hok.
 Qed.
 Print Assumptions C06_bid_expire.
+
+(* orders carried over from earlier contract versions, under legacy un-hyphenated ids included (the invariant asks
+   only for Uuid::parse_str-valid keys): after a migration of a consistent stored book (MigPre: consistent asks and
+   current-format bids, old-format bids with well-formed logs) every bid can be cancelled by its owner and made whole *)
+Theorem C06_after_migration : forall e' e st c m st' r c' id b,
+  MigPre st c -> env_version_ok e -> migrate e st m = Ok (st', r) ->
+  (forall k o, lookup k (st_bids st') <> Some (SlotV2 o)) ->
+  st_cfg st' = Some c' -> lookup id (st_bids st') = Some (SlotV3 b) ->
+  execute FX e' st' (b_owner b) [] (CancelBid id) =
+  Ok (set_bids st' (remove id (st_bids st')), mkresp (bid_exit_all e' b) (reverse_attrs "cancel_bid" id (unfilled b) false)).
+Proof.
+  intros e' e st c m st' r c' id b Hpre He Hm Hno Hc Hl.
+  destruct (Inv_after_migrate e st c m st' r Hpre He Hm Hno) as [_ HB].
+  eapply cancel_bid_live; eauto. destruct (inv_bids _ HB c' id _ Hc Hl) as (b0 & Hb0 & Hok). injection Hb0 as <-. exact Hok.
+Qed.
+Print Assumptions C06_after_migration.
 
 (* the defect the property names (fill 15 of 20 with increment 10, then exit) on the repaired model: accepted *)
 Definition ex_env : env := mkenv (fun _ => MNone) (fun _ => []) (fun s => negb (str_empty s)) "self" "1.0.0" "ats".
